@@ -249,7 +249,7 @@ class Sequence(AbstractSequence):
                     raise ValueError("Sequence on plus strand of parent must be to the left of appended sequence")
                 if self.parent.strand == Strand.MINUS and self.parent.location.start < other.parent.location.end:
                     raise ValueError("Sequence on minus strand of parent must be to the right of appended sequence")
-                new_location = self.parent.location.union(other.parent.location)
+                new_location = self.parent.location.union_preserve_overlaps(other.parent.location)
             else:
                 new_location = None
             new_parent = self.parent.reset_location(new_location)
